@@ -148,27 +148,218 @@ theorem tie_DriverQuery (W : Net.World ω) (E : Engine σ) (buf : Bytes) (fuel :
   cases hi : E.initFinished e <;> cases le <;> cases dss <;> cases hp : E.pending e <;>
     simp [Gen.Tls_DriverQuery, driverQuery, driverReceived, Gen.M.bind, Gen.M.pure, codeOf, hi, hp]
 
-/-! ### the entry points, relative to the retry loops
-
-`Gen.Tls_Read` / `Gen.Tls_Write` (the `≤ handshakeStepsMax` retry loops around `SSL_read` / `SSL_write_ex`) are generated,
-but their ties to `tlsRead` / `tlsWrite` are not proved here; the entry points are tied under the hypothesis that the
-loop they call corresponds to the model's (`ReadCorr` / `WriteCorr`). -/
-
 /-- the configuration the generated code corresponds to: the current source, `assert`s compiled out -/
 def CfgN : Cfg := { Cfg.current with asserts := false }
+
+/-! ### the retry loop of `Read(data, size)`
+
+The generated loop counts `i = 1 .. handshakeStepsMax` up, the model's `readLoop` counts the rounds left down.  What the
+engine must promise for the two to agree: a successful `SSL_read(ssl, data, n)` delivers between 1 and `n` bytes (libssl's
+contract; with 0 bytes the C++ would treat the call as failed, the model as a delivery of nothing). -/
+
+/-- libssl's promise for `SSL_read` with a buffer of `size` bytes -/
+def ReadContract (E : Engine σ) (size : Nat) : Prop :=
+  ∀ e, AllLeaves (fun ans out _ => ∀ k, ans = .done k → out ≠ [] ∧ out.length ≤ size) (E.sslRead e size)
+
+theorem stepsMaxN : CfgN.stepsMax = 10 := by decide
+theorem assertsN : CfgN.asserts = false := rfl
+
+/-- the loop of `Read`: `i` rounds left in the model = loop variable `stepsMax + 1 - i` in the C++ -/
+theorem read_loop_tie (W : Net.World ω) (E : Engine σ) (buf : Bytes) (fuel size : Nat) (hs : size < 2147483648)
+    (hE : ReadContract E size) :
+    ∀ (i n : Nat) (iv : Int) (w : TWSt σ ω), iv = 11 - (i : Int) → i ≤ 10 → i < n →
+      ∃ a r, Gen.Tls_Read_loop1 (tlsWorld W E buf) fuel size n iv w
+        = (resOfOut (fun bs => (List.length bs : Int)) (readLoop CfgN W E size i w.s).1,
+           ⟨(readLoop CfgN W E size i w.s).2, a, r⟩) := by
+  have hbm : Int.bmod (size : Int) 4294967296 = size := by
+    rw [Int.bmod_eq_of_le] <;> omega
+  intro i
+  induction i with
+  | zero =>
+    intro n iv w hiv _ hn
+    obtain ⟨n', rfl⟩ : ∃ n', n = n' + 1 := ⟨n - 1, by omega⟩
+    refine ⟨w.ans, w.rx, ?_⟩
+    subst hiv
+    simp (disch := omega) [Gen.Tls_Read_loop1, readLoop, resOfOut, Gen.M.pure]
+  | succ i ih =>
+    intro n iv w hiv hi hn
+    obtain ⟨n', rfl⟩ : ∃ n', n = n' + 1 := ⟨n - 1, by omega⟩
+    have hle : iv ≤ 10 := by omega
+    have hspec := (interp_spec (W := W) _ _ (hE w.s.e) w.s).2.2.1
+    simp only [Gen.Tls_Read_loop1, readLoop, readRound, Gen.M.bind, hbm, tw_sslRead, Int.toNat_natCast, hle, if_true]
+    rcases hI : interp W w.s (E.sslRead w.s.e size) with ⟨o, s1⟩
+    rw [hI] at hspec
+    rcases o with ⟨ans, out⟩ | x | m
+    · have hc := hspec ans out rfl
+      cases hA : ans with
+      | done k =>
+        obtain ⟨hne, hlen⟩ := hc k hA
+        have hpos : 0 < out.length := List.length_pos_iff.mpr hne
+        refine ⟨.done k, out, ?_⟩
+        have h1 : ¬ ((out.length : Int) ≤ 0) := by omega
+        have h2 : (out.length : Int) % 18446744073709551616 = out.length := by omega
+        have hr : readRes (SslAns.done k) out = (out.length : Int) := rfl
+        simp (disch := omega) only [hr, if_neg, if_pos]
+        simp [resOfOut, Gen.M.pure, h2]
+      | _ =>
+        all_goals
+          simp only [readRes, tie_HandleResult, Gen.M.bind]
+          rcases hH : handleResult W (noteCall E s1 true [] _) _ with ⟨ho, s2⟩
+          rcases ho with b | x | m
+          · cases b
+            · exact ⟨ans, out, by simp [hA, hH, resOfOut, Gen.M.pure, Gen.M.bind, tie_HandleResult, assertsN]⟩
+            · obtain ⟨a, r, h⟩ := ih n' (iv + 1) ⟨s2, ans, out⟩ (by omega) (by omega) (by omega)
+              simp only [hA] at h
+              exact ⟨a, r, by simp [hA, hH, resOfOut, Gen.M.pure, Gen.M.bind, tie_HandleResult, assertsN, h]⟩
+          · exact ⟨ans, out, by simp [hA, hH, resOfOut, Gen.M.bind, tie_HandleResult]⟩
+          · exact ⟨ans, out, by simp [hA, hH, resOfOut, Gen.M.bind, tie_HandleResult]⟩
+    · exact ⟨w.ans, w.rx, by simp [resOfOut]⟩
+    · exact ⟨w.ans, w.rx, by simp [resOfOut]⟩
+
+/-! ### the entry points, relative to the retry loops
+
+The entry points are first tied under the hypothesis that the retry loop they call corresponds to the model's (`ReadCorr` /
+`WriteCorr`, lemmas `*_rel`); both are theorems (`tie_Read`, `tie_Write`, given libssl's contracts), so the entry points are
+tied unconditionally at the end of this file. -/
 
 /-- "`Gen.Tls_Read` corresponds to `tlsRead`" (count for bytes; the final world is the model's final state) -/
 def ReadCorr (W : Net.World ω) (E : Engine σ) (buf : Bytes) (fuel size : Nat) : Prop :=
   ∀ w : TWSt σ ω, ∃ a r, Gen.Tls_Read (tlsWorld W E buf) fuel size w
     = (resOfOut (fun bs => (List.length bs : Int)) (tlsRead CfgN W E w.s size).1, ⟨(tlsRead CfgN W E w.s size).2, a, r⟩)
 
+/-- `Read(data, size)`: `HandleLastError()`, then the retry loop -/
+theorem tie_Read (W : Net.World ω) (E : Engine σ) (buf : Bytes) (fuel size : Nat) (hs : size < 2147483648)
+    (hE : ReadContract E size) (hf : 10 < fuel) : ReadCorr W E buf fuel size := by
+  intro w
+  simp only [Gen.Tls_Read, tlsRead, Gen.M.bind, tie_HandleLastError, stepsMaxN]
+  rcases handleLastError W w.s with ⟨o, s'⟩
+  rcases o with b | x | m
+  · cases b
+    · exact ⟨w.ans, w.rx, by simp [resOfOut, Gen.M.pure]⟩
+    · obtain ⟨a, r, h⟩ := read_loop_tie W E buf fuel size hs hE 10 (Gen.loopFuel fuel) 1 ⟨s', w.ans, w.rx⟩ (by omega)
+        (by omega) (by simp only [Gen.loopFuel]; omega)
+      exact ⟨a, r, by simp [resOfOut, h]⟩
+  · exact ⟨w.ans, w.rx, by simp [resOfOut]⟩
+  · exact ⟨w.ans, w.rx, by simp [resOfOut]⟩
+
 def WriteCorr (W : Net.World ω) (E : Engine σ) (buf : Bytes) (fuel : Nat) : Prop :=
   ∀ w : TWSt σ ω, ∃ a r, Gen.Tls_Write (tlsWorld W E buf) fuel 0 buf.length w
     = (resOfOut (fun (n : Nat) => (n : Int)) (tlsWrite CfgN W E w.s buf).1, ⟨(tlsWrite CfgN W E w.s buf).2, a, r⟩)
 
+/-! ### the retry loop of `Write(data, size)` -/
+
+/-- libssl's promise for `SSL_write_ex`: success means at least one and at most all of the bytes were taken -/
+def WriteContract (E : Engine σ) : Prop :=
+  ∀ e bs, AllLeaves (fun ans _ _ => ∀ k, ans = .done k → 0 < k ∧ k ≤ bs.length) (E.sslWrite e bs)
+
+theorem slice_drop (buf : Bytes) (off : Nat) :
+    slice buf (off : Int) ((0 + (buf.length : Int)) - (off : Int)) = buf.drop off := by
+  simp only [slice, Int.toNat_natCast]
+  apply List.take_of_length_le
+  simp only [List.length_drop]
+  omega
+
+theorem slice_drop' (buf : Bytes) (off : Nat) :
+    slice buf (off : Int) ((buf.length : Int) - (off : Int)) = buf.drop off := by
+  have := slice_drop buf off
+  simpa using this
+
+theorem fixRoundN : CfgN.fixRoundReset = true := rfl
+
+/-- the loop of `Write` on the caller's buffer from offset `off`: `i` rounds left in the model = loop variable `11 - i` -/
+theorem write_loop_tie (W : Net.World ω) (E : Engine σ) (buf : Bytes) (fuel : Nat) (hb : buf.length < 9223372036854775808)
+    (hE : WriteContract E) :
+    ∀ (n i off : Nat) (iv : Int) (w : TWSt σ ω), iv = 11 - (i : Int) → i ≤ 10 → off ≤ buf.length →
+      (buf.length - off) * 11 + i < n →
+      ∃ a r, Gen.Tls_Write_loop1 (tlsWorld W E buf) fuel 0 buf.length n off iv w
+        = (resOfOut (fun (rest : Bytes) => ((buf.length - rest.length : Nat) : Int)) (writeLoop CfgN W E i (buf.drop off) w.s).1,
+           ⟨(writeLoop CfgN W E i (buf.drop off) w.s).2, a, r⟩) := by
+  intro n
+  induction n with
+  | zero => intro i off iv w _ _ _ hm; omega
+  | succ n ih =>
+    intro i off iv w hiv hi hoff hm
+    have hret : (((buf.length : Int) - ((0 + (buf.length : Int)) - (off : Int))) % 18446744073709551616) = (off : Int) := by omega
+    have hlen : (buf.drop off).length = buf.length - off := List.length_drop
+    have hres : ((buf.length - (buf.drop off).length : Nat) : Int) = (off : Int) := by rw [hlen]; omega
+    cases i with
+    | zero =>
+      have h1 : ¬ (iv ≤ 10) := by omega
+      refine ⟨w.ans, w.rx, ?_⟩
+      rw [writeLoop]
+      simp (disch := omega) [Gen.Tls_Write_loop1, h1, Gen.M.pure, resOfOut, hret, hres]
+      omega
+    | succ i' =>
+      have hle : iv ≤ 10 := by omega
+      by_cases hfull : off = buf.length
+      · refine ⟨w.ans, w.rx, ?_⟩
+        have he : buf.drop off = [] := by rw [hfull]; exact List.drop_length
+        have h0 : ((0 + (buf.length : Int)) - (off : Int)) = 0 := by omega
+        rw [writeLoop]
+        simp [Gen.Tls_Write_loop1, h0, he, Gen.M.pure, resOfOut, hfull]
+        omega
+      · have hne : buf.drop off ≠ [] := by
+          intro h; have := congrArg List.length h; simp at this; omega
+        have h0 : ¬ (((0 + (buf.length : Int)) - (off : Int)) = 0) := by omega
+        have hspec := (interp_spec (W := W) _ _ (hE w.s.e (buf.drop off)) w.s).2.2.1
+        rw [writeLoop]
+        simp only [Gen.Tls_Write_loop1, Gen.M.bind, tw_sslWriteEx, slice_drop, hle, h0, not_false_eq_true, and_self, if_true,
+          hne, if_false, writeRound, assertsN, Bool.false_eq_true, false_and]
+        rcases hI : interp W w.s (E.sslWrite w.s.e (buf.drop off)) with ⟨o, s1⟩
+        rw [hI] at hspec
+        rcases o with ⟨ans, out⟩ | x | m
+        · have hc := hspec ans out rfl
+          cases hA : ans with
+          | done k =>
+            obtain ⟨hk0, hk1⟩ := hc k hA
+            rw [hlen] at hk1
+            have hd : roundDecreases (buf.drop off) i' ((buf.drop off).drop k) 10 :=
+              Or.inl (by simp only [List.length_drop]; omega)
+            obtain ⟨a, r, h⟩ := ih 10 (off + k) 1 ⟨setPending (noteCall E s1 false (buf.drop off) (.done k)) [], .done k, w.rx⟩
+              (by omega) (by omega) (by omega) (by omega)
+            have hcast : ((off + k : Nat) : Int) = (off : Int) + (k : Int) := by omega
+            have hs0 : slice buf 0 0 = [] := by simp [slice]
+            simp only [hcast, List.drop_drop] at h hd
+            refine ⟨a, r, ?_⟩
+            simp [hk0, fixRoundN, stepsMaxN, hd, Gen.M.bind, hs0, h, List.drop_drop]
+          | _ =>
+            all_goals
+              rcases hH : handleResult W (setPending (noteCall E s1 false (buf.drop off) ans) (buf.drop off)) ans with ⟨ho, s3⟩
+              simp only [hA] at hH
+              have hd : roundDecreases (buf.drop off) i' (buf.drop off) i' := Or.inr ⟨rfl, Nat.le_refl _⟩
+              rcases ho with b | x | m
+              · cases b
+                · exact ⟨ans, w.rx, by simp [hA, hH, writeRetry, resOfOut, Gen.M.pure, Gen.M.bind, tie_HandleResult, slice_drop, slice_drop', hret, hres]; omega⟩
+                · obtain ⟨a, r, h⟩ := ih i' off (iv + 1) ⟨s3, ans, w.rx⟩ (by omega) (by omega) hoff (by omega)
+                  simp only [hA] at h
+                  exact ⟨a, r, by simp [hA, hH, writeRetry, resOfOut, Gen.M.pure, Gen.M.bind, tie_HandleResult, slice_drop, slice_drop', assertsN, hd, h]⟩
+              · exact ⟨ans, w.rx, by simp [hA, hH, writeRetry, resOfOut, Gen.M.bind, tie_HandleResult, slice_drop, slice_drop']⟩
+              · exact ⟨ans, w.rx, by simp [hA, hH, writeRetry, resOfOut, Gen.M.bind, tie_HandleResult, slice_drop, slice_drop']⟩
+        · exact ⟨w.ans, w.rx, by simp [resOfOut]⟩
+        · exact ⟨w.ans, w.rx, by simp [resOfOut]⟩
+
+/-- `Write(data, size)` on the whole buffer: `HandleLastError()`, then the retry loop -/
+theorem tie_Write (W : Net.World ω) (E : Engine σ) (buf : Bytes) (fuel : Nat) (hb : buf.length < 9223372036854775808)
+    (hE : WriteContract E) (hf : buf.length * 11 + 10 < fuel) : WriteCorr W E buf fuel := by
+  intro w
+  simp only [Gen.Tls_Write, tlsWrite, Gen.M.bind, tie_HandleLastError, stepsMaxN]
+  rcases handleLastError W w.s with ⟨o, s'⟩
+  rcases o with b | x | m
+  · cases b
+    · exact ⟨w.ans, w.rx, by simp [resOfOut, Gen.M.pure]⟩
+    · obtain ⟨a, r, h⟩ := write_loop_tie W E buf fuel hb hE (Gen.loopFuel fuel) 10 0 1 ⟨s', w.ans, w.rx⟩ (by omega)
+        (by omega) (by omega) (by simp only [Gen.loopFuel]; omega)
+      simp only [List.drop_zero, Int.natCast_zero] at h
+      refine ⟨a, r, ?_⟩
+      rcases hw : writeLoop CfgN W E 10 buf s' with ⟨o2, s2⟩
+      rw [hw] at h
+      cases o2 <;> simp [resOfOut, h, hw]
+  · exact ⟨w.ans, w.rx, by simp [resOfOut]⟩
+  · exact ⟨w.ans, w.rx, by simp [resOfOut]⟩
+
 /-- `Receive(data, size, timeout)`: `nullopt` for no bytes, and (319faf2) a stale WANT_READ is reset once the
 handshake is finished -/
-theorem tie_ReceiveT (W : Net.World ω) (E : Engine σ) (buf : Bytes) (fuel size : Nat) (hR : ReadCorr W E buf fuel size)
+theorem receiveT_rel (W : Net.World ω) (E : Engine σ) (buf : Bytes) (fuel size : Nat) (hR : ReadCorr W E buf fuel size)
     (t : Int) (w : TWSt σ ω) :
     ∃ a r, Gen.Tls_ReceiveT (tlsWorld W E buf) fuel size t w
       = (resOfOut (fun bs => if bs = [] then none else some (List.length bs : Int)) (receiveT CfgN W E w.s size t).1,
@@ -191,7 +382,7 @@ theorem tie_ReceiveT (W : Net.World ω) (E : Engine σ) (buf : Bytes) (fuel size
         simp [resOfOut, Gen.M.pure, Gen.M.bind, CfgN, Cfg.current, codeOf, hl, hi, setLastError, errOf]
 
 /-- `Send(data, size, timeout)`: (ee81033) a stale WANT_WRITE is reset once the handshake is finished -/
-theorem tie_SendT (W : Net.World ω) (E : Engine σ) (buf : Bytes) (fuel : Nat) (hW : WriteCorr W E buf fuel)
+theorem sendT_rel (W : Net.World ω) (E : Engine σ) (buf : Bytes) (fuel : Nat) (hW : WriteCorr W E buf fuel)
     (t : Int) (w : TWSt σ ω) :
     ∃ a r, Gen.Tls_SendT (tlsWorld W E buf) fuel 0 buf.length t w
       = (resOfOut (fun (n : Nat) => (n : Int)) (sendT CfgN W E w.s buf t).1, ⟨(sendT CfgN W E w.s buf t).2, a, r⟩) := by
@@ -205,5 +396,132 @@ theorem tie_SendT (W : Net.World ω) (E : Engine σ) (buf : Bytes) (fuel : Nat) 
     refine ⟨a, r, ?_⟩
     cases hl : s'.g.lastError <;> cases hi : E.initFinished s'.e <;>
       simp [resOfOut, Gen.M.pure, Gen.M.bind, CfgN, Cfg.current, codeOf, hl, hi, setLastError, errOf]
+
+/-! ### the driver-mode entry points ("we have been deemed readable / writable"), relative to the retry loops -/
+
+/-- the state after the generated prefix `remainingTime = zeroTimeout; isReadable = true; if(lastError == WANT_READ) lastError = NONE` -/
+theorem prepReadable_eq (g : Glue) (e : σ) (ww : ω) :
+    (prepReadable ⟨g, e, ww⟩ : St σ ω) =
+      ⟨{ g with remainingTime := 0, isReadable := true, lastError := if g.lastError = .wantRead then .none else g.lastError }, e, ww⟩ := rfl
+
+theorem prepWritable_eq (g : Glue) (e : σ) (ww : ω) :
+    (prepWritable ⟨g, e, ww⟩ : St σ ω) =
+      ⟨{ g with remainingTime := 0, isWritable := true, lastError := if g.lastError = .wantWrite then .none else g.lastError }, e, ww⟩ := rfl
+
+/-- `Receive(data, size)` (driver: readable): zero budget, `isReadable`, a cached WANT_READ forgotten; afterwards a
+stale error is reset when nothing was read and the handshake is finished -/
+theorem receiveReadable_rel (W : Net.World ω) (E : Engine σ) (buf : Bytes) (fuel size : Nat) (hR : ReadCorr W E buf fuel size)
+    (w : TWSt σ ω) :
+    ∃ a r, Gen.Tls_ReceiveReadable (tlsWorld W E buf) fuel size w
+      = (resOfOut (fun bs => (List.length bs : Int)) (receiveReadable CfgN W E w.s size).1,
+         ⟨(receiveReadable CfgN W E w.s size).2, a, r⟩) := by
+  obtain ⟨a, r, h⟩ := hR ⟨prepReadable w.s, w.ans, w.rx⟩
+  rcases w with ⟨⟨⟨le, ps, rt, ir, iw, dss, pe, wire, bw, ec⟩, e, ww⟩, ans, rx⟩
+  simp only [prepReadable_eq] at h
+  refine ⟨a, r, ?_⟩
+  cases le <;>
+    simp only [Gen.Tls_ReceiveReadable, receiveReadable, Gen.M.bind, tw_set_remainingTime, tw_set_isReadable,
+      tw_get_lastError, tw_set_lastError, codeOf, setTimeout, setLastError, errOf, prepReadable_eq] <;>
+    simp (disch := omega) only [if_pos, if_neg, if_true, if_false, reduceCtorEq] at h ⊢ <;>
+    (generalize tlsRead CfgN W E _ size = rd at h ⊢
+     (try simp only [Gen.M.bind])
+     rcases rd with ⟨o, s'⟩
+     rcases o with bs | x | m
+     · cases bs with
+       | nil => cases hi : E.initFinished s'.e <;> simp [h, resOfOut, Gen.M.pure, Gen.M.bind, hi, setLastError, errOf]
+       | cons b bs' =>
+         have hne : ¬ ((bs'.length : Int) + 1 = 0) := by omega
+         simp [h, resOfOut, Gen.M.pure, Gen.M.bind, hne, setLastError, errOf]
+     · simp [h, resOfOut, setLastError, errOf]
+     · simp [h, resOfOut, setLastError, errOf])
+
+/-- `SendSome(data, size)` (driver: writable): zero budget, `isWritable`, a cached WANT_WRITE forgotten -/
+theorem sendSomeWritable_rel (W : Net.World ω) (E : Engine σ) (buf : Bytes) (fuel : Nat) (hW : WriteCorr W E buf fuel)
+    (w : TWSt σ ω) :
+    ∃ a r, Gen.Tls_SendSomeWritable (tlsWorld W E buf) fuel 0 buf.length w
+      = (resOfOut (fun (n : Nat) => (n : Int)) (sendSomeWritable CfgN W E w.s buf).1,
+         ⟨(sendSomeWritable CfgN W E w.s buf).2, a, r⟩) := by
+  obtain ⟨a, r, h⟩ := hW ⟨prepWritable w.s, w.ans, w.rx⟩
+  rcases w with ⟨⟨⟨le, ps, rt, ir, iw, dss, pe, wire, bw, ec⟩, e, ww⟩, ans, rx⟩
+  simp only [prepWritable_eq] at h
+  refine ⟨a, r, ?_⟩
+  cases le <;>
+    simp only [Gen.Tls_SendSomeWritable, sendSomeWritable, Gen.M.bind, tw_set_remainingTime, tw_set_isWritable,
+      tw_get_lastError, tw_set_lastError, codeOf, setTimeout, setLastError, errOf, prepWritable_eq] <;>
+    simp (disch := omega) only [if_pos, if_neg, if_true, if_false, reduceCtorEq] at h ⊢ <;>
+    (generalize tlsWrite CfgN W E _ buf = rd at h ⊢
+     (try simp only [Gen.M.bind])
+     rcases rd with ⟨o, s'⟩
+     rcases o with n | x | m <;> simp [h, resOfOut, Gen.M.pure, Gen.M.bind, setLastError, errOf])
+
+/-- `DriverPending()`: nothing when the handshake is finished; otherwise "deemed writable" and one `Read` into a local
+buffer of 64 bytes, which must not deliver application data -/
+theorem driverPending_rel (W : Net.World ω) (E : Engine σ) (buf : Bytes) (fuel : Nat) (hR : ReadCorr W E buf fuel 64)
+    (w : TWSt σ ω) :
+    ∃ a r, Gen.Tls_DriverPending (tlsWorld W E buf) fuel w
+      = (resOfOut id (driverPending CfgN W E w.s).1,
+         if E.initFinished w.s.e then w else ⟨(driverPending CfgN W E w.s).2, a, r⟩) := by
+  obtain ⟨a, r, h⟩ := hR ⟨prepWritable w.s, w.ans, w.rx⟩
+  rcases w with ⟨⟨⟨le, ps, rt, ir, iw, dss, pe, wire, bw, ec⟩, e, ww⟩, ans, rx⟩
+  have h64 : ((64 : Nat) : Int) = 64 := rfl
+  simp only [prepWritable_eq, h64] at h
+  refine ⟨a, r, ?_⟩
+  cases hf : E.initFinished e
+  · cases le <;>
+      simp only [Gen.Tls_DriverPending, driverPending, Gen.M.bind, tw_sslIsInitFinished, tw_set_remainingTime, tw_set_isWritable,
+        tw_get_lastError, tw_set_lastError, codeOf, setTimeout, setLastError, errOf, prepWritable_eq, hf,
+        Bool.false_eq_true, if_false, if_true, ne_eq, not_true_eq_false, not_false_eq_true, eq_self, reduceCtorEq] <;>
+      simp (disch := omega) only [if_pos, if_neg, if_true, if_false, reduceCtorEq, Bool.false_eq_true] at h ⊢ <;>
+      (generalize tlsRead CfgN W E _ 64 = rd at h ⊢
+       (try simp only [Gen.M.bind])
+       rcases rd with ⟨o, s'⟩
+       rcases o with bs | x | m
+       · cases bs with
+         | nil => simp [h, resOfOut, Gen.M.pure, Gen.M.bind, setLastError, errOf]
+         | cons b bs' =>
+           have hne : ¬ ((bs'.length : Int) + 1 = 0) := by omega
+           simp [h, resOfOut, Gen.M.pure, Gen.M.bind, Gen.M.throw, hne, setLastError, errOf, toThrown]
+       · simp [h, resOfOut, setLastError, errOf]
+       · simp [h, resOfOut, setLastError, errOf])
+  · simp [Gen.Tls_DriverPending, driverPending, Gen.M.bind, Gen.M.pure, hf, resOfOut]
+
+/-! ### the receiving entry points, unconditionally (given libssl's `SSL_read` contract, a buffer below 2 GiB and fuel for
+the `handshakeStepsMax` rounds) -/
+
+theorem tie_ReceiveT (W : Net.World ω) (E : Engine σ) (buf : Bytes) (fuel size : Nat) (hs : size < 2147483648)
+    (hE : ReadContract E size) (hf : 10 < fuel) (t : Int) (w : TWSt σ ω) :
+    ∃ a r, Gen.Tls_ReceiveT (tlsWorld W E buf) fuel size t w
+      = (resOfOut (fun bs => if bs = [] then none else some (List.length bs : Int)) (receiveT CfgN W E w.s size t).1,
+         ⟨(receiveT CfgN W E w.s size t).2, a, r⟩) :=
+  receiveT_rel W E buf fuel size (tie_Read W E buf fuel size hs hE hf) t w
+
+theorem tie_ReceiveReadable (W : Net.World ω) (E : Engine σ) (buf : Bytes) (fuel size : Nat) (hs : size < 2147483648)
+    (hE : ReadContract E size) (hf : 10 < fuel) (w : TWSt σ ω) :
+    ∃ a r, Gen.Tls_ReceiveReadable (tlsWorld W E buf) fuel size w
+      = (resOfOut (fun bs => (List.length bs : Int)) (receiveReadable CfgN W E w.s size).1,
+         ⟨(receiveReadable CfgN W E w.s size).2, a, r⟩) :=
+  receiveReadable_rel W E buf fuel size (tie_Read W E buf fuel size hs hE hf) w
+
+theorem tie_DriverPending (W : Net.World ω) (E : Engine σ) (buf : Bytes) (fuel : Nat) (hE : ReadContract E 64)
+    (hf : 10 < fuel) (w : TWSt σ ω) :
+    ∃ a r, Gen.Tls_DriverPending (tlsWorld W E buf) fuel w
+      = (resOfOut id (driverPending CfgN W E w.s).1,
+         if E.initFinished w.s.e then w else ⟨(driverPending CfgN W E w.s).2, a, r⟩) :=
+  driverPending_rel W E buf fuel (tie_Read W E buf fuel 64 (by decide) hE hf) w
+
+/-! ### the sending entry points, unconditionally (given libssl's `SSL_write_ex` contract and fuel for the rounds) -/
+
+theorem tie_SendT (W : Net.World ω) (E : Engine σ) (buf : Bytes) (fuel : Nat) (hb : buf.length < 9223372036854775808)
+    (hE : WriteContract E) (hf : buf.length * 11 + 10 < fuel) (t : Int) (w : TWSt σ ω) :
+    ∃ a r, Gen.Tls_SendT (tlsWorld W E buf) fuel 0 buf.length t w
+      = (resOfOut (fun (n : Nat) => (n : Int)) (sendT CfgN W E w.s buf t).1, ⟨(sendT CfgN W E w.s buf t).2, a, r⟩) :=
+  sendT_rel W E buf fuel (tie_Write W E buf fuel hb hE hf) t w
+
+theorem tie_SendSomeWritable (W : Net.World ω) (E : Engine σ) (buf : Bytes) (fuel : Nat) (hb : buf.length < 9223372036854775808)
+    (hE : WriteContract E) (hf : buf.length * 11 + 10 < fuel) (w : TWSt σ ω) :
+    ∃ a r, Gen.Tls_SendSomeWritable (tlsWorld W E buf) fuel 0 buf.length w
+      = (resOfOut (fun (n : Nat) => (n : Int)) (sendSomeWritable CfgN W E w.s buf).1,
+         ⟨(sendSomeWritable CfgN W E w.s buf).2, a, r⟩) :=
+  sendSomeWritable_rel W E buf fuel (tie_Write W E buf fuel hb hE hf) w
 
 end SockModel.Props.C18Tie
